@@ -74,8 +74,23 @@ Inductive inst_res :=
 | IRes (i : instance) (rstate : string) (rdata : option response) (err : bool)
 | IPanic.
 
-(* FSMInstance.Do *)
-Definition inst_do (i : instance) (ev : string) (req : request) : inst_res :=
+(* FSMInstance.Do, first part: a machine sitting in one of its final states that is the entry state
+   of another machine hands the round over to that machine (as FromDump does for a persisted round) *)
+Definition handover (i : instance) : instance :=
+  match table_by_name (i_mach i) with
+  | Some t =>
+      if mem_str (i_cur i) (ft_fin t) then
+        match machine_by_state (i_cur i) with
+        | Some t' => if String.eqb (ft_name t') (i_mach i) then i
+                     else {| i_mach := ft_name t'; i_cur := i_cur i; i_dstate := i_dstate i; i_payload := i_payload i |}
+        | None => i
+        end
+      else i
+  | None => i
+  end.
+
+(* FSMInstance.Do on the machine the instance holds *)
+Definition inst_do_core (i : instance) (ev : string) (req : request) : inst_res :=
   match table_by_name (i_mach i) with
   | None => IRoute i
   | Some t =>
@@ -87,6 +102,10 @@ Definition inst_do (i : instance) (ev : string) (req : request) : inst_res :=
           IRes {| i_mach := i_mach i; i_cur := cur; i_dstate := cur; i_payload := p |} rstate rdata err
       end
   end.
+
+(* FSMInstance.Do *)
+Definition inst_do (i : instance) (ev : string) (req : request) : inst_res :=
+  inst_do_core (handover i) ev req.
 
 (* ---- the part of node.processMessage that drives the FSM (without signatures, operations and
    storage): restore, apply the event, issue the two manual hand-overs and the restart ---- *)
